@@ -17,7 +17,50 @@ NOTES = ("All checks: bin/check <ID> quick|thorough. Exit 0 = held within the st
 
 NOT_APPLICABLE = {}
 
+CODEC_OUT = ["generic-JSON content beyond flat string-valued objects (handled by encoding/json alone)",
+             "URI text form: net/url is modelled as an opaque token with String(Parse(s)) == s",
+             "chat/resources.go document types (time.Time, float32, net/url inside the standard library)",
+             "multi-byte UTF-8 and strings longer than the capacity bound",
+             "fidelity of the encoding/json dispatch model (validated by native replay of witnesses, not proved)"]
+
 CHECKS = {
+    "C01": {
+        "level_text": "All five envelope kinds are built with symbolic ids, node addresses, metadata, enum members, reasons, option lists, "
+                      "authentication payloads and documents (text, JSON object, ping, registered custom type, container, collection, nested), "
+                      "pushed through the real toRawEnvelope/MarshalJSON/MarshalText code and back through both decode paths "
+                      "(typed UnmarshalJSON and rawEnvelope.toEnvelope); field-wise equality and kind preservation are SMT verdicts. "
+                      "Text forms (Node, Identity, MediaType, the three enums) are proved to parse back for every string within the capacity.",
+        "level_note": "Trusted: SSA->SMT executor, encoding/json dispatch model, z3. Bounds: string capacity 2/3 (text forms 6/10), metadata <= 1/2, "
+                      "collection items <= 1/2, document nesting 1/2-3; well-formedness assumptions are listed in the evidence.",
+        "runs": [
+            {"harness": "HarnessC01TextForms", "grid": {"form": [0, 1, 2, 3, 4, 5]}, "params": {"tcap": 6}, "tier": "quick"},
+            {"harness": "HarnessC01TextForms", "grid": {"form": [0, 1, 2]}, "params": {"tcap": 10}, "tier": "thorough", "qtimeout": 300},
+            {"harness": "HarnessC01Message", "grid": {"doc": [0, 1, 2, 3, 4, 5]}, "params": {"cap": 2, "depth": 1},
+             "reach": ["c01:message-built", "c01:message-roundtrip-done"], "tier": "quick"},
+            {"harness": "HarnessC01Message", "grid": {"doc": [0, 1, 2, 3, 4, 5], "depth": [2, 3]}, "params": {"cap": 3, "items": 2, "meta": 2},
+             "reach": ["c01:message-built", "c01:message-roundtrip-done"], "tier": "thorough"},
+            {"harness": "HarnessC01Notification", "params": {"cap": 2}, "reach": ["c01:notification-roundtrip-done"], "tier": "quick"},
+            {"harness": "HarnessC01Notification", "params": {"cap": 4, "meta": 2}, "reach": ["c01:notification-roundtrip-done"], "tier": "thorough"},
+            {"harness": "HarnessC01Response", "grid": {"doc": [0, 1, 2, 3, 4, 5, 6]}, "params": {"cap": 2, "depth": 1},
+             "reach": ["c01:response-roundtrip-done"], "tier": "quick"},
+            {"harness": "HarnessC01Response", "grid": {"doc": [0, 1, 2, 3, 4, 5, 6]}, "params": {"cap": 3, "depth": 2, "items": 2},
+             "reach": ["c01:response-roundtrip-done"], "tier": "thorough"},
+            {"harness": "HarnessC01Request", "grid": {"doc": [0, 1, 2, 3, 4, 5, 6]}, "params": {"cap": 2, "depth": 1},
+             "reach": ["c01:request-roundtrip-done"], "tier": "quick"},
+            {"harness": "HarnessC01Request", "grid": {"doc": [0, 1, 2, 3, 4, 5, 6]}, "params": {"cap": 3, "depth": 2, "items": 2},
+             "reach": ["c01:request-roundtrip-done"], "tier": "thorough"},
+            {"harness": "HarnessC01Session", "grid": {"lists": [0, 1, 2], "auth": [0, 1, 2, 3, 4, 5, 6]}, "params": {"cap": 2},
+             "reach": ["c01:session-roundtrip-done"], "tier": "quick"},
+            {"harness": "HarnessC01Session", "grid": {"lists": [0, 1, 2], "auth": [0, 1, 2, 3, 4, 5, 6]}, "params": {"cap": 3, "meta": 2},
+             "reach": ["c01:session-roundtrip-done"], "tier": "thorough"},
+        ],
+        "bounds": {"quick": {"string_cap": 2, "text_form_cap": 6, "metadata_entries": 1, "collection_items": 1, "doc_depth": 1},
+                   "thorough": {"string_cap": 3, "text_form_cap": 10, "metadata_entries": 2, "collection_items": 2, "doc_depth": 3}},
+        "out": CODEC_OUT,
+        "assumptions": ["well-formedness: identity name/domain contain neither '@' nor '/', instance no '/', media type/subtype neither '/' nor '+', "
+                        "suffix no '+'; Message.Type == Content.MediaType(); command Type set iff Resource set; enum fields hold members; "
+                        "nil vs empty map identified; response commands carry a status; present optional nodes differ from the zero node"],
+    },
     "C11": {
         "level_text": "Every path of the real reply builders (SuccessResponse, SuccessResponseWithResource, FailureResponse, Message.Notification, "
                       "FailedNotification, both AutoReplyPings handlers) and of the real codec round trip of the built reply is executed symbolically "
